@@ -225,6 +225,23 @@ Theorem C09_lock_regions_present : forall r, In r required_lock_sites -> In r go
 Proof. exact lock_regions_present. Qed.
 Print Assumptions C09_lock_regions_present.
 
+(* ... and the guards the models' transitions mirror (closeIfIdle's "no stream and no
+   reservation", idleStateLocked, forgetStreamID's close-on-idle, the HTTP/3 useCount test, the
+   HTTP/1.1 limits) are, as source text, the ones the models were written from *)
+Theorem C09_guards_present : forall g, In g required_guards -> In g go_guards.
+Proof. exact guards_present. Qed.
+Print Assumptions C09_guards_present.
+
+(* the interleaving "connection picked (GotConn) - CloseIdleConnections by another goroutine -
+   writeRequest": the reservation keeps the connection open and the request opens its stream on it *)
+Theorem C09_h2_reserved_survives_close_idle : forall evs r c retry, let s := h2_run evs in
+  r_phase s r = RReserved c -> can_take (unreserve s c r) c = true ->
+  let s' := h2_step (h2_step s H2CloseIdle) (H2Open r retry) in
+  c_closed (h2_step s H2CloseIdle) c = c_closed s c /\
+  r_phase s' r = ROpen c (c_next s c) /\ c_closed s' c = false.
+Proof. exact h2_reserved_survives_close_idle. Qed.
+Print Assumptions C09_h2_reserved_survives_close_idle.
+
 (* the models' constants are the source's: initialMaxConcurrentStreams, default idle conns per
    host, first stream id and the id increment of addStreamLocked *)
 Theorem C09_model_constants_agree :
